@@ -332,6 +332,42 @@ func (cc *c06case) showTM(tm *onet.TreeMarshal) string {
 	return fmt.Sprintf("T%s,R%s,%d;%s", lab(ok1, tl, tm.TreeID.IsNil()), lab(ok2, rl, tm.RosterID.IsNil()), len(tm.Children), strings.Join(items, ","))
 }
 
+// bindTree gives the tree built for label tid its identifier: its own (content hash) when that is
+// free, the one the label is already bound to, or a synthetic one when another label owns the hash.
+func (cc *c06case) bindTree(t *onet.Tree, tid int) {
+	if real, bound := cc.tidReal[tid]; bound {
+		t.ID = real // another tree under an id that is already taken
+	} else if tid == 0 {
+		t.ID = onet.TreeID(uuid.Nil)
+	} else if _, taken := cc.tidLabel[t.ID]; taken {
+		t.ID = cc.realTid(tid) // same content as a tree with another label: see rosters
+	} else {
+		cc.tidReal[tid], cc.tidLabel[t.ID] = t.ID, tid
+	}
+}
+
+// aggCheck recomputes every subtree aggregate from the keys and compares it with the one the
+// tree carries ("" when all agree).
+func (cc *c06case) aggCheck(t *onet.Tree) string {
+	bad := ""
+	var walk func(n *onet.TreeNode) kyber.Point
+	walk = func(n *onet.TreeNode) kyber.Point {
+		sum := cc.su.s.Point().Add(cc.su.s.Point().Null(), n.ServerIdentity.Public)
+		for _, c := range n.Children {
+			sum = cc.su.s.Point().Add(sum, walk(c))
+		}
+		if bad == "" && (n.PublicAggregateSubTree == nil || !n.PublicAggregateSubTree.Equal(sum)) {
+			bad = fmt.Sprintf("the node of server %s carries the aggregate %s, the keys of its subtree sum up to %s",
+				cc.su.log(n.ServerIdentity.Public), cc.su.log(n.PublicAggregateSubTree), cc.su.log(sum))
+		}
+		return sum
+	}
+	if t != nil && t.Root != nil {
+		walk(t.Root)
+	}
+	return bad
+}
+
 func c06errClass(err error) string {
 	s := err.Error()
 	switch {
@@ -444,7 +480,7 @@ func c06sameTree(a, b *onet.Tree) string {
 		}
 		for i := range a.Roster.List {
 			x, y := a.Roster.List[i], b.Roster.List[i]
-			if !x.ID.Equal(y.ID) || !x.Public.Equal(y.Public) || len(x.ServiceIdentities) != len(y.ServiceIdentities) {
+			if !x.ID.Equal(y.ID) || !x.Public.Equal(y.Public) || len(x.ServiceIdentities) != len(y.ServiceIdentities) || x.Address != y.Address {
 				return fmt.Sprintf("roster member %d differs", i)
 			}
 		}
@@ -707,17 +743,53 @@ func c06exec(c *h.Ctx, cs *h.Case) {
 					return
 				}
 				t := onet.NewTree(ro, root)
-				if real, bound := cc.tidReal[tid]; bound {
-					t.ID = real // another tree under an id that is already taken
-				} else if tid == 0 {
-					t.ID = onet.TreeID(uuid.Nil)
-				} else if _, taken := cc.tidLabel[t.ID]; taken {
-					t.ID = cc.realTid(tid) // same content as a tree with another label: see rosters
-				} else {
-					cc.tidReal[tid], cc.tidLabel[t.ID] = t.ID, tid
-				}
+				cc.bindTree(t, tid)
 				cc.trees[l] = t
 				obs = cc.showTree(t)
+				if d := cc.aggCheck(t); d != "" {
+					cs.Fail("aggregate-wrong", d+" — "+op)
+				}
+			case "retree":
+				// the TreeNode objects of an existing tree are re-used: one node gets a new leaf or
+				// loses its last child, then NewTree is called over the same root
+				if len(tk) < 7 {
+					return
+				}
+				l, ok1 := atoi(tk[2])
+				tid, ok2 := atoi(tk[3])
+				ol, ok3 := atoi(tk[4])
+				old, ok4 := cc.trees[ol]
+				k, ok5 := atoi(tk[6])
+				if !ok1 || !ok2 || !ok3 || !ok4 || !ok5 || old.Roster == nil {
+					return
+				}
+				nodes := old.List()
+				if k >= len(nodes) {
+					return
+				}
+				switch {
+				case tk[5] == "add" && len(tk) == 8:
+					p, ok := atoi(tk[7])
+					if !ok || p >= len(old.Roster.List) {
+						return
+					}
+					nodes[k].AddChild(onet.NewTreeNode(p, old.Roster.List[p]))
+				case tk[5] == "prune" && len(tk) == 7:
+					if len(nodes[k].Children) == 0 {
+						return
+					}
+					nodes[k].Children = nodes[k].Children[:len(nodes[k].Children)-1]
+				default:
+					return
+				}
+				t := onet.NewTree(old.Roster, old.Root)
+				cc.bindTree(t, tid)
+				delete(cc.trees, ol)
+				cc.trees[l] = t
+				obs = cc.showTree(t)
+				if d := cc.aggCheck(t); d != "" {
+					cs.Fail("aggregate-wrong", d+" — "+op)
+				}
 			case "marshal-rt":
 				if len(tk) != 4 {
 					return
@@ -1000,6 +1072,37 @@ func c06exec(c *h.Ctx, cs *h.Case) {
 					}
 				}
 				checkStore(before, true, op)
+				if rt, ok := msg.(*onet.ResponseTree); ok && rt.TreeMarshal != nil && !rt.TreeMarshal.TreeID.IsNil() {
+					// a requested ResponseTree: what is stored must be the description rebuilt over the
+					// roster that came WITH it — or nothing, when the two do not fit
+					id := rt.TreeMarshal.TreeID
+					old, was := before[id]
+					if was && old == nil {
+						stored := snapshot()[id]
+						want, err := rt.TreeMarshal.MakeTree(rt.Roster)
+						switch {
+						case err != nil && stored != nil:
+							cs.Fail("mismatching-response-stored", "a description that does not fit the roster sent with it ("+err.Error()+") was stored — "+op)
+						case err == nil && stored == nil:
+							cs.Fail("wellformed-response-dropped", "a requested, well-formed ResponseTree was not stored — "+op)
+						case err == nil:
+							if d := c06sameTree(want, stored); d != "" {
+								cs.Fail("learnt-tree-differs", "the stored tree is not the description rebuilt over the roster sent with it: "+d+" — "+op)
+							}
+							if d := cc.aggCheck(stored); d != "" {
+								cs.Fail("aggregate-wrong", d+" — learnt by "+op)
+							}
+							// the sender's own tree object, when this case built it: the learner's copy equals it
+							for _, lt := range cc.trees {
+								if lt.ID.Equal(id) && lt.Roster == rt.Roster && cc.showTM(lt.MakeTreeMarshal()) == cc.showTM(rt.TreeMarshal) {
+									if d := c06sameTree(lt, stored); d != "" {
+										cs.Fail("learnt-tree-differs-from-senders", d+" — "+op)
+									}
+								}
+							}
+						}
+					}
+				}
 				obs = "out[" + strings.Join(outs, " ") + "] " + showStore()
 			case "propagate":
 				// `propagate <member:arity,…> <child position in pre-order>`: a tree over the six real
@@ -1194,6 +1297,39 @@ func (t *c06tspec) desc(tid, rid int) string {
 	return fmt.Sprintf("T%d,R%d,1;%s", tid, rid, strings.Join(it, ","))
 }
 
+// subEnd: index just behind the subtree of pre-order node k
+func c06subEnd(ar []int, k int) int {
+	end := k + 1
+	for i := 0; i < ar[k]; i++ {
+		end = c06subEnd(ar, end)
+	}
+	return end
+}
+
+// withLeaf: the spec of the tree after node k got a new leaf on roster position p as last child
+func (t *c06tspec) withLeaf(label, tid, k, p int) *c06tspec {
+	e := c06subEnd(t.ar, k)
+	n := &c06tspec{label: label, tid: tid, ro: t.ro}
+	n.pos = append(append(append([]int{}, t.pos[:e]...), p), t.pos[e:]...)
+	n.ar = append(append(append([]int{}, t.ar[:e]...), 0), t.ar[e:]...)
+	n.ar[k]++
+	return n
+}
+
+// pruned: the spec after node k lost its last child (it must have one)
+func (t *c06tspec) pruned(label, tid, k int) *c06tspec {
+	last := k + 1
+	for i := 0; i < t.ar[k]-1; i++ {
+		last = c06subEnd(t.ar, last)
+	}
+	e := c06subEnd(t.ar, last)
+	n := &c06tspec{label: label, tid: tid, ro: t.ro}
+	n.pos = append(append([]int{}, t.pos[:last]...), t.pos[e:]...)
+	n.ar = append(append([]int{}, t.ar[:last]...), t.ar[e:]...)
+	n.ar[k]--
+	return n
+}
+
 func c06gen(c *h.Ctx, yield func(*h.Case)) {
 	r := c.Rng
 	emit := func(class string, ops []string) {
@@ -1272,8 +1408,12 @@ func c06gen(c *h.Ctx, yield func(*h.Case)) {
 				r.Shuffle(len(other.servers), func(i, j int) { other.servers[i], other.servers[j] = other.servers[j], other.servers[i] })
 				other.servers = append(other.servers, c06maxServers-1)
 				ops := []string{ro.op(), other.op()}
+				var first *c06tspec
 				for ti := 0; ti < 4; ti++ {
 					t := &c06tspec{label: ti + 1, tid: ti + 1, ro: ro}
+					if ti == 0 {
+						first = t
+					}
 					switch k := r.Intn(6); {
 					case k < 3:
 						t.pos, t.ar = genShape(k, n, 1+r.Intn(4), 0)
@@ -1286,6 +1426,26 @@ func c06gen(c *h.Ctx, yield func(*h.Case)) {
 					if ti == 0 {
 						ops = append(ops, fmt.Sprintf("c06 marshal-rt %d 2", t.label), fmt.Sprintf("c06 marshal-rt %d nil", t.label),
 							"c06 maketree "+t.desc(t.tid, 1)+" 1")
+					}
+				}
+				// the nodes of tree 1 re-used: a node deep in the tree gets a leaf, loses it again, an
+				// inner node is pruned — NewTree over the same root each time, then the round trips
+				{
+					k := len(first.pos) - 1 - r.Intn((len(first.pos)+1)/2)
+					p := r.Intn(n)
+					grown := first.withLeaf(9, 9, k, p)
+					ops = append(ops, fmt.Sprintf("c06 retree 9 9 1 add %d %d", k, p), "c06 marshal-rt 9 1", "c06 binary-rt 9",
+						"c06 maketree "+grown.desc(9, 1)+" 1")
+					shrunk := grown.pruned(10, 10, k)
+					ops = append(ops, fmt.Sprintf("c06 retree 10 10 9 prune %d", k), "c06 marshal-rt 10 1")
+					var inner []int
+					for j, a := range shrunk.ar {
+						if a > 0 {
+							inner = append(inner, j)
+						}
+					}
+					if len(inner) > 0 {
+						ops = append(ops, fmt.Sprintf("c06 retree 11 11 10 prune %d", inner[r.Intn(len(inner))]), "c06 marshal-rt 11 1", "c06 binary-rt 11")
 					}
 				}
 				emit(fmt.Sprintf("roundtrip %s svc=%d", c06suiteNames[si], svc), ops)
@@ -1325,7 +1485,8 @@ func c06gen(c *h.Ctx, yield func(*h.Case)) {
 		r1 := randRoster(1, 1, r.Intn(2), n)
 		r2 := &c06rspec{2, 2, r1.tag, append([]int{c06maxServers - 1}, r1.servers...)}
 		r3 := &c06rspec{3, 1, r1.tag, append([]int{}, r1.servers[:n-1]...)}
-		ops := []string{r1.op(), r2.op(), r3.op()}
+		r4 := &c06rspec{4, 1, r1.tag ^ 1, append([]int{}, r1.servers...)} // the id and servers of roster 1, other content
+		ops := []string{r1.op(), r2.op(), r3.op(), r4.op()}
 		var ts []*c06tspec
 		for i := 0; i < 4; i++ {
 			ro := r1
@@ -1345,7 +1506,14 @@ func c06gen(c *h.Ctx, yield func(*h.Case)) {
 		t5.pos, t5.ar = randShape(2+r.Intn(5), n)
 		ts = append(ts, t5)
 		ops = append(ops, t5.op())
-		return ops, []*c06rspec{r1, r2, r3}, ts
+		// tree 6 over roster 3 (the id of roster 1, one server less), tree 7 over roster 4
+		t6 := &c06tspec{label: 6, tid: 6, ro: r3}
+		t6.pos, t6.ar = randShape(1+r.Intn(4), len(r3.servers))
+		t7 := &c06tspec{label: 7, tid: 7, ro: r4}
+		t7.pos, t7.ar = randShape(1+r.Intn(5), n)
+		ts = append(ts, t6, t7)
+		ops = append(ops, t6.op(), t7.op())
+		return ops, []*c06rspec{r1, r2, r3, r4}, ts
 	}
 	resp := func(t *c06tspec, tid int, ro int) string {
 		return fmt.Sprintf("c06 h.msg resptree %s %d", t.desc(tid, t.ro.id), ro)
@@ -1353,7 +1521,7 @@ func c06gen(c *h.Ctx, yield func(*h.Case)) {
 	for i := 0; i < c.Pick(450, 6000); i++ {
 		ops, _, ts := world()
 		t1, t2, t4, t5 := ts[0], ts[1], ts[3], ts[4]
-		switch i % 11 {
+		switch i % 12 {
 		case 0: // solicited, then repeated, then a different tree under the same id
 			ops = append(ops, "c06 h.request 1", resp(t1, 1, 1), resp(t1, 1, 1), resp(t5, 1, 1), "c06 h.msg reqtree 1 1", "c06 h.msg reqtree 1 0")
 			emit("history solicited", ops)
@@ -1387,8 +1555,20 @@ func c06gen(c *h.Ctx, yield func(*h.Case)) {
 			ops = append(ops, "c06 h.request 1", "c06 h.msg tm "+parked, resp(t1, 1, 1), "c06 h.msg roster 1", "c06 h.msg reqtree 1 1",
 				"c06 h.request 2", "c06 h.msg tm "+t2.desc(2, 1), "c06 h.msg tm "+t5.desc(2, 1), "c06 h.msg roster 1", "c06 h.msg roster 1", "c06 h.msg reqtree 2 1")
 			emit("history parked-then-response", ops)
+		case 11: // the receiver already holds a tree over a roster with the same id but other content:
+			// the learnt tree must be built over the roster that comes WITH the response
+			t6, t7 := ts[5], ts[6]
+			switch (i / 12) % 3 {
+			case 0: // older roster lacks a server the new tree uses
+				ops = append(ops, "c06 h.register 6", "c06 h.request 1", resp(t1, 1, 1), "c06 h.msg reqtree 1 1")
+			case 1: // same servers, other content (service keys): the learnt tree carries the roster sent
+				ops = append(ops, "c06 h.register 2", "c06 h.request 7", resp(t7, 7, 4), "c06 h.msg reqtree 7 1", "c06 h.request 1", resp(t1, 1, 4))
+			default: // the stored roster is the larger one; a description that fits it but not the roster sent is refused
+				ops = append(ops, "c06 h.register 2", "c06 h.request 1", resp(t1, 1, 3), "c06 h.request 6", resp(t6, 6, 3), "c06 h.msg reqtree 6 1")
+			}
+			emit("history known-roster-id", ops)
 		case 9: // the real request path: a request that cannot be sent leaves nothing behind
-			if i/11 >= c.Pick(20, 150) {
+			if i/12 >= c.Pick(20, 150) {
 				// a failing send costs about half a second (5 connection attempts): bounded number
 				ops = append(ops, "c06 h.reqsend 1", resp(t1, 1, 1), "c06 h.reqsend 1", "c06 h.reqsend 2", "c06 h.msg reqtree 1 1")
 				emit("history request-path", ops)
